@@ -147,7 +147,25 @@ let normalise (toks : string list) : string list =
 
 let split (s : string) : string list = List.filter (fun x -> x <> "") (String.split_on_char ' ' (String.trim s))
 
+(* `driver --utf8 FILE`: each line `<HEX> <std verdict>`; prints the lines on which the model's utf8_valid disagrees *)
+let utf8_mode (file : string) : unit =
+  let ic = open_in file in
+  let n = ref 0 and bad = ref 0 in
+  (try
+     while true do
+       let line = input_line ic in
+       match split line with
+       | [h; v] ->
+           incr n;
+           let m = if utf8_valid (bytes_of_hex h) then "1" else "0" in
+           if m <> v then begin incr bad; if !bad <= 10 then Printf.printf "DISAGREE %s model=%s std=%s\n" h m v end
+       | _ -> ()
+     done
+   with End_of_file -> ());
+  Printf.printf "utf8_valid compared %d disagreements %d\n" !n !bad
+
 let () =
+  if Array.length Sys.argv > 2 && Sys.argv.(1) = "--utf8" then (utf8_mode Sys.argv.(2); exit 0);
   let ic = if Array.length Sys.argv > 1 then open_in Sys.argv.(1) else stdin in
   let buf = Buffer.create 65536 in
   let case_id = ref "" and statics = ref [] and fails = ref [] and limit = ref (n_of_int 1073741824) in
